@@ -509,3 +509,9 @@ package js_ast
 //@   ensures logical-needs-both: result && is(data, *EBinary) && data.(*EBinary).Op != BinOpUShr ==>
 //@       isInt32OrUint32(data.(*EBinary).Left.Data) && isInt32OrUint32(data.(*EBinary).Right.Data)
 //@   ensures conditional-needs-both: result && is(data, *EIf) ==> isInt32OrUint32(data.(*EIf).Yes.Data) && isInt32OrUint32(data.(*EIf).No.Data)
+
+// C04: an unused object literal still evaluates each computed key with ToPropertyKey (ECMA-262 13.2.5.5 / 7.1.19:
+// ToPrimitive hint "string", Symbols pass through). `key + ""` is a different operation (ToPrimitive hint "default",
+// then ToString, which throws for a Symbol), so the key may be rewritten to a string addition only where the two agree:
+// when the key is a primitive literal.
+//@ guarded computed-key-to-string-addition-only-for-primitives C04: func=(HelperContext).SimplifyUnusedExpr ; in=js_ast ; site=store EBinary.Left ; scenario=unused_object_symbol_key ; when=*.Key ; require=true:call IsPrimitiveLiteral(*)
